@@ -37,8 +37,16 @@ def havoc_state(it, s):
             at = old.single_atom() if old is not None else None
             base = at.name if isinstance(at, T.Sym) else "%s.%s" % (n, name)
             mapping[base] = base + MARK
-            q.obj.term = T.sym(base + MARK)
+            _rebind(it, q, T.sym(base + MARK))
     return mapping
+
+
+def _rebind(it, q, term):
+    """`q.data = <new tensor>`: same python object, flags and version counter, other storage (views taken earlier go stale)."""
+    if q.view:
+        q.obj.term = term
+    else:
+        it.rebind_storage(q, term, None, "set .data (history protocol)")
 
 
 def havoc_module(it, m, prefix):
@@ -48,8 +56,33 @@ def havoc_module(it, m, prefix):
         at = old.single_atom() if old is not None else None
         base = at.name if isinstance(at, T.Sym) else "%s.%s" % (prefix, name)
         mapping[base] = base + MARK
-        q.obj.term = T.sym(base + MARK)
+        _rebind(it, q, T.sym(base + MARK))
     return mapping
+
+
+def havoc_reinit(it, s):
+    """The library's own way of replacing every parameter: `reinitialize_parameters()` creates *new* Parameter objects (what
+    was captured before - a view, a bound partial, a tensor kept in an attribute - keeps the old ones).  The new objects then
+    hold new values."""
+    names = {}
+    for n in state_networks(it, s):
+        m = it.get_attr(s, n, None)
+        for name, q in module_params(it, m):
+            at = q.obj.term.single_atom() if q.obj.term is not None else None
+            names[(n, name)] = at.name if isinstance(at, T.Sym) else "%s.%s" % (n, name)
+    it.call_method(s, "reinitialize_parameters", [], {}, None)
+    mapping = {}
+    for n in state_networks(it, s):
+        m = it.get_attr(s, n, None)
+        for name, q in module_params(it, m):
+            base = names.get((n, name), "%s.%s" % (n, name))
+            mapping[base] = base + MARK
+            q.obj.term = T.sym(base + MARK)
+    return mapping
+
+
+def _has_reinit(it, s):
+    return isinstance(s, VObj) and s.inst.cls is not None and s.inst.cls.find_method("reinitialize_parameters") is not None
 
 
 _COUNTERS = re.compile(r"\b(nnz|T)\d+")
@@ -107,18 +140,24 @@ def check_history(ck, rule, inst, site, make, f, stubs=None, max_paths=48, stick
     Three calls: r1; parameters replaced; r2; tensor arguments overwritten in place; r3."""
     prog = ck.program
 
-    def th(it):
+    def th(it, mode=0):
         ctx = make(it)
         r1 = f(it, ctx)
         t1 = snapshot_terms(it, r1)
         k1, c1 = len(it.taken), len(it.conds)
-        mp = (havoc or havoc_state)(it, ctx[0])
+        if mode == 1:
+            if not _has_reinit(it, ctx[0]):
+                return None
+            mp = havoc_reinit(it, ctx[0])
+        else:
+            mp = (havoc or havoc_state)(it, ctx[0])
+        k1, c1 = len(it.taken), len(it.conds)
         r2 = f(it, ctx)
         t2 = snapshot_terms(it, r2)
         t1_after = snapshot_terms(it, r1)
         k2, c2 = len(it.taken), len(it.conds)
-        rec = {"r": [r1, r2], "t": [t1, t2], "t1_after": t1_after, "maps": [dict(mp)], "new_decisions": [k2 - k1], "conds": [list(it.conds[c1:c2])], "args": ctx[1:]}
-        if inputs:
+        rec = {"r": [r1, r2], "t": [t1, t2], "t1_after": t1_after, "maps": [dict(mp)], "new_decisions": [k2 - k1], "conds": [list(it.conds[c1:c2])], "args": ctx[1:], "mode": mode}
+        if inputs and mode == 0:
             ma = havoc_args(it, ctx[1:])
             if ma:
                 r3 = f(it, ctx)
@@ -134,6 +173,8 @@ def check_history(ck, rule, inst, site, make, f, stubs=None, max_paths=48, stick
     what = ["every parameter was replaced (p.data = new)", "the argument tensors were overwritten in place"]
     with ck.guard(rule, inst, site):
         paths = [p for p in paths_of(prog, th, max_paths=max_paths, sticky=sticky, stubs=stubs) if p.outcome == "return"]
+        if havoc is None:
+            paths += [p for p in paths_of(prog, lambda it: th(it, 1), max_paths=max_paths, sticky=sticky, stubs=stubs) if p.outcome == "return" and p.value is not None]
         if not paths:
             ck.undecided(rule, inst, site, "no path evaluates the call repeatedly")
             return
@@ -143,7 +184,7 @@ def check_history(ck, rule, inst, site, make, f, stubs=None, max_paths=48, stick
             tag = ",".join("%s=%s" % (c[1][:22], c[2]) for c in p.conds[:3])
             a1 = _flat(rec["t"][0])
             for k in range(1, len(rec["t"])):
-                name = "%s:call %d, after %s, is a fresh evaluation [%s]" % (inst, k + 1, "a parameter change" if k == 1 else "an in-place change of the inputs", tag)
+                name = "%s:call %d, after %s, is a fresh evaluation [%s]" % (inst, k + 1, ("reinitialize_parameters()" if rec.get("mode") else "a parameter change") if k == 1 else "an in-place change of the inputs", tag)
                 a2 = _flat(rec["t"][k])
                 mapping = rec["maps"][k - 1]
                 old = set(mapping)
@@ -161,7 +202,8 @@ def check_history(ck, rule, inst, site, make, f, stubs=None, max_paths=48, stick
                     ck.ok(rule, name, site)
                 elif stale and rec["new_decisions"][k - 1] == 0:
                     ck.violation(rule, name, site, "after %s, the next call still returns a value computed from the previous %s: a stored result is reused without being invalidated"
-                                 % (what[k - 1], ", ".join(sorted(stale)[:4])), key="%s|%s|stale%d" % (rule, inst, k))
+                                 % ("reinitialize_parameters() created new parameters" if rec.get("mode") and k == 1 else what[k - 1], ", ".join(sorted(stale)[:4])),
+                                 key="%s|%s|stale%d%s" % (rule, inst, k, "r" if rec.get("mode") else ""))
                 elif stale:
                     cd = [c[1][:60] for c in rec["conds"][k - 1]][:2]
                     ck.undecided(rule, name, site, "the call may reuse a value computed from the previous %s; whether it does depends on %s" % (", ".join(sorted(stale)[:3]), cd))
